@@ -304,9 +304,44 @@ def check_grid(ctx, nrows, ncols, codes, maxinlets, default_nval=False, light=Fa
             ctx.violation("upstream:set", base, "upstream(%d) = %s, model %s" % (c, up[c].tolist(), sorted(m.up[c])),
                           observed=up[c].tolist(), expected=sorted(m.up[c]))
 
+    # ---- the same relations asked for a vector of cells in another order, with a repeated cell: row i answers cell i
+    if ntot >= 3:
+        st = next(k for k in (2, 3, 5, 7, 11, 13) if ntot % k != 0) if ntot > 3 else 2
+        perm = [(i * st + 1) % ntot for i in range(ntot)] + [0, ntot - 1, 0]
+        try:
+            down_p = ca.downstream(np.array(perm))
+            up_p = ca.upstream(np.array(perm))
+            ctx.case(nontriv, n=2)
+            if down_p.tolist() != down[perm].tolist():
+                ctx.violation("downstream:vector-order", base, "downstream(%s) = %s, cell by cell %s" % (perm, down_p.tolist(), down[perm].tolist()))
+            if np.sort(up_p, axis=1).tolist() != np.sort(up[perm], axis=1).tolist():
+                ctx.violation("upstream:vector-order", base, "upstream(%s): rows do not answer the requested cells in their order: %s, cell by cell %s" % (
+                    perm, up_p.tolist(), up[perm].tolist()))
+        except Exception as e:
+            ctx.case(nontriv)
+            ctx.violation("relations:raised:vector-order", base, "downstream/upstream raised %r on a permuted vector of valid cells" % (e,))
+
     # ---- areas, filled areas, flow path lengths
     for outlet in (range(ntot) if outlets is None else outlets):
         oncycle = m.on_cycle(outlet)
+        if not oncycle:
+            # an inlet list that names a cell twice, with another inlet in between: the same area as without the repeat
+            cand = [c for c in m.area(outlet, ()) if c != outlet][:3]
+            if len(cand) >= 2:
+                a, b = cand[0], cand[1]
+                for rep in ([a, b, a], [b, a, b, a]):
+                    case = dict(base, outlet=outlet, inlets=rep)
+                    try:
+                        ca.delineate_area(outlet, rep, nval=ntot + 3)
+                        got = sorted(int(v) for v in ca.idxcells_area)
+                        ctx.case(nontriv, outcome=(outlet, tuple(got), "rep"))
+                        if got != m.area(outlet, (a, b)):
+                            ctx.violation("delineate_area:area:repeated-inlets", case,
+                                          "outlet %d inlets %s: area %s, expected %s (the area cut at inlets %s)" % (
+                                              outlet, rep, got, m.area(outlet, (a, b)), sorted(set(rep))))
+                    except Exception as e:
+                        ctx.case(nontriv)
+                        ctx.count("area.repeated_inlets.raised.%s" % type(e).__name__)
         for inlets in inlet_sets(ntot, outlet, maxinlets):
             case = dict(base, outlet=outlet, inlets=inlets)
             nval = ntot + 3
